@@ -330,7 +330,10 @@ func genPlan(t *rapid.T, windows bool) *plan {
 			case "join.snapshotted", "join.registered":
 				w.Do = rapid.SampledFrom([]string{"end:close", "end:unregist"}).Draw(t, "do")
 			default:
-				w.Do = "end:close"
+				// converter windows: the stream ends, half of the time while its publisher is
+				// still sending (the demuxer in front of the muxers is working off packets when
+				// the muxers are closed; after seeded change C03-R6B)
+				w.Do = rapid.SampledFrom([]string{"end:close", "publish+end:close"}).Draw(t, "do")
 			}
 			pl.Windows = append(pl.Windows, w)
 		}
@@ -433,6 +436,9 @@ func run(t evid.TB, pl *plan, label string) {
 			case "publish":
 				w.publish(1)
 			case "end:close":
+				w.end("close")
+			case "publish+end:close":
+				w.publish(24)
 				w.end("close")
 			case "end:unregist":
 				w.end("unregist")
